@@ -648,6 +648,68 @@ func c10Concrete(c *core.Ctx, fn *types.Func, tabs *Tables) bool {
 			}
 		}
 	}
+	// long rows: two ambiguous (or two differing) columns separated by every number of reference-identical columns from
+	// 0 to 17 - a row is summarised column by column whatever lies between two events
+	{
+		ref := "ACGTACGTACGTACGTACGTACGT"
+		var rows []string
+		for g := 0; g <= 17; g++ {
+			for _, ev := range []string{"NN", "NT", "TN", "TT"} {
+				r := []byte(ref)
+				for k, p := range []int{2, 3 + g} {
+					if ev[k] == 'N' {
+						r[p] = 'N'
+					} else if r[p] == 'T' {
+						r[p] = 'A'
+					} else {
+						r[p] = 'T'
+					}
+				}
+				rows = append(rows, string(r))
+			}
+		}
+		var feed []eval.Value
+		for i, srow := range rows {
+			rec := absValue(recT, "r", eval.K(int64(len(ref)))).(*eval.StructVal)
+			rec.F["ID"] = eval.S(fmt.Sprintf("w%d", i))
+			rec.F["Description"] = eval.S(fmt.Sprintf("w%d", i))
+			rec.F["Idx"] = eval.K(int64(i))
+			rec.F["Seq"] = enc(srow)
+			feed = append(feed, rec)
+		}
+		ev := newEval(c)
+		out, errs := &eval.ChanVal{Name: "out"}, &eval.ChanVal{Name: "err"}
+		if _, err := ev.CallFunc(fn, enc(ref), &eval.ChanVal{Name: "in", Feed: feed}, out, errs); err != nil || len(out.Sent) != len(rows) {
+			c.Und(key, fn.Pos(), "cannot evaluate getLines on the long rows: %v (%d rows)", err, len(out.Sent))
+			return false
+		}
+		for i, srow := range rows {
+			n++
+			row, _ := out.Sent[i].(*eval.StructVal)
+			var wSnps []string
+			var wAmbs []int64
+			for k := 0; k < len(ref); {
+				if srow[k] != 'N' {
+					if srow[k] != ref[k] {
+						wSnps = append(wSnps, fmt.Sprintf("%c%d%c", ref[k], k+1, srow[k]))
+					}
+					k++
+					continue
+				}
+				e := k
+				for e < len(ref) && srow[e] == 'N' {
+					e++
+				}
+				wAmbs = append(wAmbs, int64(k+1), int64(e))
+				k = e
+			}
+			gSnps, ok1 := strs(row.F["snps"])
+			gAmbs, ok2 := ints(row.F["ambs"])
+			if row == nil || !ok1 || !ok2 || fmt.Sprint(gSnps) != fmt.Sprint(wSnps) || fmt.Sprint(gAmbs) != fmt.Sprint(wAmbs) {
+				bad = append(bad, fmt.Sprintf("reference %s, sequence %s: SNPs %v ambiguity ranges %v, specified %v %v", ref, srow, gSnps, gAmbs, wSnps, wAmbs))
+			}
+		}
+	}
 	c.Count("getlines_rows_evaluated", n)
 	c.Ob(key, len(bad) == 0, fn.Pos(), "%s", first(bad, 3))
 	return len(bad) == 0
